@@ -50,7 +50,7 @@ def _case(draw, tier):
         nodes.append({"parent": parent, "decorated": draw(st.booleans()), "kind": nodes[0]["kind"]})
     ops = []
     for _ in range(draw(st.integers(3, 14))):
-        k = draw(st.sampled_from(["new", "new", "new", "sym", "sym", "infer", "clear", "query", "query", "query"]))
+        k = draw(st.sampled_from(["new", "new", "new", "sym", "sym", "infer", "clear", "query", "query", "query", "query_partial"]))
         c = draw(st.integers(0, len(nodes) - 1))
         if k == "new":
             ops.append(["new", c, draw(st.sampled_from(["positional", "keyword", "defaults"])), draw(st.integers(0, 3)),
@@ -62,6 +62,9 @@ def _case(draw, tier):
             ops.append(["infer", c, draw(st.integers(0, 3))])
         elif k == "clear":
             ops.append(["clear"])
+        elif k == "query_partial":
+            # an evaluation over a no-domain variable that the consumer gives up after its first result
+            ops.append(["query_partial", c, draw(st.sampled_from(["let", "block"])), draw(st.sampled_from(["break", "close", "the"]))])
         else:
             ops.append(["query", c, draw(st.sampled_from(["let", "block", "block_entity", "rule_block", "rule_block_entity"]))])
     ops.append(["query", draw(st.integers(0, len(nodes) - 1)), "let"])
@@ -215,6 +218,29 @@ def check(case) -> Outcome:
                 Variable._cache_.clear()
                 model = []
                 cls_set.add("clear")
+            elif k == "query_partial":
+                cls = classes[op[1]]
+                if op[2] == "let":
+                    pv = let(cls)
+                else:
+                    with symbolic_mode():
+                        pv = cls()
+                try:
+                    if op[3] == "the":
+                        try:
+                            the(entity(pv)).evaluate()
+                        except (MultipleSolutionFound, NoSolutionFound):
+                            pass
+                    else:
+                        it_ = an(entity(pv)).evaluate()
+                        for _r in it_:
+                            break
+                        if op[3] == "close":
+                            it_.close()
+                        log.append(it_)           # (with "break" the iterator stays referenced and unfinished)
+                except Exception as e:
+                    return fail("exception", f"step {step} {op}: {type(e).__name__}: {e}", classes=sorted(cls_set))
+                cls_set.add("evaluation_given_up_" + op[3])
             elif k == "query":
                 cls = classes[op[1]]
                 if op[2] == "let":
